@@ -40,6 +40,7 @@ type faultSpec struct {
 	// line faults: the nth line of dir that starts with prefix (counted over whole writes)
 	prefix string
 	nth    int
+	repl   string // forge: the line to put in its place ("" = c02Forge)
 }
 
 func (f faultSpec) String() string {
@@ -153,6 +154,8 @@ func (h *c02Hook) apply(dir int, b []byte) e2eAction {
 			touched = touched || f.offset < stop
 		case "dropline", "dupline", "forge":
 			touched = touched || !h.applied[f]
+		case "coalesce":
+			touched = true
 		default:
 			touched = touched || (f.offset >= start && f.offset < stop)
 		}
@@ -238,6 +241,9 @@ func (h *c02Hook) apply(dir int, b []byte) e2eAction {
 						repl = append(append([]byte{}, line...), line...)
 					case "forge":
 						repl = c02Forge(line, f.bit)
+						if f.repl != "" {
+							repl = []byte(f.repl)
+						}
 					}
 					out = append(out[:p:p], append(repl, out[p+nl+1:]...)...)
 					h.applied[f] = true
@@ -245,6 +251,20 @@ func (h *c02Hook) apply(dir int, b []byte) e2eAction {
 				}
 			}
 			p += nl + 1
+		}
+	}
+	// a transport that delivers a DATA frame together with what follows it (the finish flag): nothing is
+	// changed, the two writes arrive as one
+	for _, f := range h.faults {
+		if f.dir != dir || f.kind != "coalesce" {
+			continue
+		}
+		out = append(h.carry[f], out...)
+		h.carry[f] = nil
+		if i := bytes.LastIndex(out, []byte("#DATA:")); i >= 0 && !bytes.HasSuffix(out, []byte("#DATA:\n")) && !bytes.HasSuffix(out, []byte("#DATA:0\n")) &&
+			!bytes.Contains(out[i:], []byte("#MD5:")) {
+			h.carry[f] = out
+			out = nil
 		}
 	}
 	if len(out) == 0 {
@@ -407,6 +427,20 @@ func genFaults(c *ctx) {
 		b.pre = []c01tPre{{rel: "f0.bin", content: old}}
 		bases = append(bases, b)
 	}
+	// one small file; the SIZE message damaged to 0 and its echo damaged back: the size check of the
+	// receiving pipeline (protocol >= 2) is a race between the acknowledger and the saver
+	for i := 0; i < c.pick(2, 6); i++ {
+		b := &c02Base{root: filepath.Join(work, fmt.Sprintf("sz%d", i)), kind: "size-race"}
+		k := int(c.rng.Int63n(16))
+		b.cfg = e2eCfg{upload: i%2 == 0, binary: (k/2)%2 == 0, proto: 2 + (k/4)%3, timeout: 2, quiet: true,
+			deadline: 25 * time.Second, startWait: 1500 * time.Millisecond, compress: "yes"}
+		rng := rand.New(rand.NewSource(c.rng.Int63()))
+		os.MkdirAll(filepath.Join(b.root, "s"), 0755)
+		p := filepath.Join(b.root, "s", "f0.bin")
+		os.WriteFile(p, fillBytes(rng, 1+rng.Intn(3000), rng.Intn(4)), 0644)
+		b.tops = []string{p}
+		bases = append(bases, b)
+	}
 	// directory mode, protocol 4, a directory with children: the archive stream
 	for i := 0; i < c.pick(2, 8); i++ {
 		b := &c02Base{root: filepath.Join(work, fmt.Sprintf("a%d", i)), kind: "archive"}
@@ -531,6 +565,18 @@ func genFaults(c *ctx) {
 			}
 			return f
 		}
+		if b.kind == "size-race" {
+			st, _ := os.Stat(b.tops[0])
+			for k := 0; k < c.pick(8, 24); k++ {
+				cases = append(cases, &fcase{b: b, phase: []string{"SIZE", "SUCC(size)", "SUCC(final)", "DATA"}, fs: []faultSpec{
+					{dir: ddir, kind: "forge", prefix: "#SIZE:", nth: 1, repl: "#SIZE:0\n"},
+					{dir: 1 - ddir, kind: "forge", prefix: "#SUCC:", nth: 3, repl: fmt.Sprintf("#SUCC:%d\n", st.Size())},
+					// the final ack says "saved up to 0": the sender would wait for its own size
+					{dir: 1 - ddir, kind: "forge", prefix: "#SUCC:", nth: 6, repl: fmt.Sprintf("#SUCC:%d\n", st.Size())},
+					{dir: ddir, kind: "coalesce"}}})
+			}
+			continue
+		}
 		if b.kind == "resume-blocks" {
 			// the answers of the hash exchange are the 3rd, 4th ... line of the answering direction
 			// (after the echo of NUM and the name reply): one of them lost, doubled, or forged
@@ -594,7 +640,7 @@ func genFaults(c *ctx) {
 			}
 		}
 		h.mu.Lock()
-		run := &c02fRun{cfg: cfg, tops: fc.b.tops, pre: fc.b.pre, dest: dest, res: r,
+		run := &c02fRun{cfg: cfg, tops: fc.b.tops, pre: fc.b.pre, dest: dest, res: r, kind: fc.b.kind,
 			sent:  [2][]byte{append([]byte{}, h.sent[0].Bytes()...), append([]byte{}, h.sent[1].Bytes()...)},
 			deliv: r.wire}
 		for d := 0; d < 2; d++ {
@@ -610,6 +656,19 @@ func genFaults(c *ctx) {
 		}
 		run.desc = fmt.Sprintf("faults %s cfg: %s kind=%s", strings.Join(fss, " "), describeCfg(cfg), fc.b.kind)
 		fc.tie = c02fEvaluate(run)
+		if os.Getenv("C02_DEBUG") != "" && fc.b.kind == "size-race" {
+			for d := 0; d < 2; d++ {
+				for _, l := range bytes.Split(run.sent[d], []byte("\n")) {
+					if bytes.HasPrefix(l, []byte("#FAIL:")) || bytes.HasPrefix(l, []byte("#fail:")) {
+						t, _ := trzsz.VerifDecodeString(string(l[6:]))
+						fmt.Fprintf(os.Stderr, "SIZERACE dir=%d fail=%q\n", d, tailStr(string(t), 160))
+						if strings.Contains(string(t), "timeout") {
+							fmt.Fprintf(os.Stderr, "SIZERACE-WIRE %s\n  sent0=%q\n  deliv0=%q\n  sent1=%q\n  deliv1=%q\n", describeCfg(cfg), tailStr(string(run.sent[0]), 600), tailStr(string(run.deliv[0]), 600), tailStr(string(run.sent[1]), 600), tailStr(string(run.deliv[1]), 600))
+						}
+					}
+				}
+			}
+		}
 		os.RemoveAll(dest)
 	})
 	for _, fc := range cases {
@@ -630,6 +689,9 @@ func genFaults(c *ctx) {
 			c.count("outcome:error")
 		}
 		key := "silent-corruption:" + fc.fs[0].kind + ":" + fc.phase[0]
+		if fc.b.kind == "size-race" {
+			key = "size-race:e2e"
+		}
 		if fc.b.kind == "resume-blocks" {
 			// one fault on an answer of the prefix-hash exchange
 			key = "resume-hash-answer:" + map[string]string{"cut": "lost", "dupline": "doubled", "forge": "forged"}[fc.fs[0].kind]
